@@ -602,3 +602,5 @@ M("C04", "Hamiltonian type chosen from the basis name", "kill",
 M("C12", "first sparse term bypasses the coalescing sum", "kill",
   [("emu_sv/sparse_operator.py", "            accum_res = sparse_add(\n                accum_res, coeff * reduce(sparse_kron, single_qubit_gates)\n            )",
     "            term = coeff * reduce(sparse_kron, single_qubit_gates)\n            accum_res = sparse_add(accum_res, term) if accum_res._nnz() > 0 else term")], "TABLES-terms")
+M("C27", "pending snapshot written to the system temp directory", "kill",
+  [(IMPL, "        with open(basename.with_suffix(\".new\"), \"wb\") as file_handle:", "        import tempfile\n        with open(pathlib.Path(tempfile.gettempdir()) / basename.with_suffix(\".new\").name, \"wb\") as file_handle:")], "SAVE-window")
